@@ -817,3 +817,79 @@ def display_mantissa(ctx):
             ctx.violate(q, 'amounts are formatted in the unit %s through a float: up to %.1e whole units have to be told apart, a float distinguishes 2^53 = 9.0e15' % (sym, float(distinct)), asg[0],
                         "Value.from_satoshi(2003380357255359).str('n') == '20033803572553588 nBTC', which parses back to ...358: off by one smallest unit")
     ctx.floor(n, 15, 'denominators')
+
+
+@PROP.obligation('C17.text-means-coins', canaries=[
+    mut.insert_before('values', 'value_to_satoshi', 'if isinstance(value, str):', "if isinstance(value, str) and value.strip().isdigit():\n    value = int(value)", 'digit-only text read as a count of smallest units'),
+])
+def text_means_coins(ctx):
+    """An amount given as TEXT is parsed by Value: '5' is 5 coins like '5.0' and '5 BTC' (Value('5') is 5 BTC; Output('5', ...) pays 5
+    coins). value_to_satoshi, evaluated on concrete strings with and without digits only, hands every one of them to Value and returns that
+    object's value_sat - no spelling of a number takes a shortcut that reads it in another unit."""
+    q = 'values:value_to_satoshi'
+    fn = ctx.repo.func(q)
+    n = 0
+    for text in ('5', '12', '0', ' 7 ', '5.0', '0.5', '5 BTC', '100 sat'):
+        for net in (None, 'bitcoin'):
+            made = []
+
+            def h_value(it, args, kwargs, st, node):
+                v = ('valueobj', args[0] if args and isinstance(args[0], str) else term(args[0]) if args else None)
+                made.append(v)
+                st.heap[('attr', v, 'network')] = S(('net', net or 'bitcoin'))
+                return S(v)
+            it = Interp(ctx.repo, 'values', hooks={'Value': h_value, 'Network': lambda it_, a, kw, st_, node: S(('net', term(a[0]) if a else None))},
+                        decide=lambda t: (False if isinstance(t, tuple) and t and t[0] == 'cmp' and t[1] in ('!=',) and 'net' in show(t) else
+                                          (('Value' in show(t[2])) if isinstance(t, tuple) and t and t[0] == 'isinstance' and isinstance(t[1], tuple) and t[1][:1] == ('valueobj',) else None)))
+            try:
+                exits = it.run_function(fn, {'value': text, 'network': net})
+            except AnalysisError as e:
+                ctx.undecided('value_to_satoshi(%r) not evaluable: %s' % (text, str(e)[:100]))
+            rets = [term(e.value) for e in exits if e.kind == 'return']
+            n += 1
+            ok = len(made) >= 1 and made[0] == ('valueobj', text) and rets and all(r == ('attr', ('valueobj', text), 'value_sat') for r in rets)
+            ctx.saw('value_to_satoshi(%r, network=%r) -> %s' % (text, net, [show(r)[:40] for r in rets]))
+            ctx.require(ok, q, 'the text amount %r gives %s instead of Value(%r).value_sat' % (text, [show(r)[:40] for r in rets] or 'no result', text), fn,
+                        "value_to_satoshi('5') returns 5 smallest units while '5.0' and '5 BTC' are 5 coins: Output('2', addr) pays 2 satoshi, send_to(addr, '1') pays 1 satoshi")
+    ctx.floor(n, 16, 'text amounts')
+
+
+@PROP.obligation('C17.units-as-configured', canaries=[
+    mut.replace_stmt('services.baseclient', 'BaseClient.__init__', 'self.units = denominator', 'self.units = denominator\nif not self.units or self.units <= 1:\n    self.units = round(1 / self.network.denominator)', 'a provider denominator of 1 replaced by 10^8'),
+    mut.replace_stmt('services.baseclient', 'BaseClient.__init__', 'self.units = denominator', 'self.units = denominator or 100000000', 'missing denominator defaults to coins'),
+])
+def units_as_configured(ctx):
+    """Provider clients scale what an API reports by `self.units`, the `denominator` of the provider's entry in providers.json: 100000000
+    for APIs that report coins, 1 for those that already report the smallest unit (blockchaininfo, bitgo, blockcypher, mempool).
+    `self.units` is exactly the value handed to the constructor - assigned once, from the parameter, not adjusted afterwards - and every
+    provider entry carries one of the two denominators."""
+    import json
+    import os
+    n = 0
+    for modname in sorted(ctx.repo.modules):
+        if not modname.startswith('services.'):
+            continue
+        m = ctx.repo.mod(modname)
+        for qn, fn in sorted(m.functions.items()):
+            for a in ast.walk(fn):
+                tg = a.targets if isinstance(a, ast.Assign) else ([a.target] if isinstance(a, (ast.AugAssign, ast.AnnAssign)) else [])
+                for t in tg:
+                    for x in ast.walk(t):
+                        if isinstance(x, ast.Attribute) and x.attr == 'units' and isinstance(x.value, ast.Name) and x.value.id == 'self':
+                            n += 1
+                            ok = isinstance(a, ast.Assign) and isinstance(a.value, ast.Name) and a.value.id == 'denominator' and qn.endswith('.__init__')
+                            ctx.saw('%s:%s: %s' % (modname, qn, norm(a)[:70]))
+                            ctx.require(ok, '%s:%s' % (modname, qn), '`%s`: the scaling factor of a provider client is not simply the configured denominator' % norm(a)[:80], a,
+                                        'providers that report the smallest unit (denominator 1) are scaled by 10^8: 123456789 satoshi become 12345678900000000')
+    ctx.floor(n, 1, 'assignments to self.units')
+    try:
+        data = json.load(open(os.path.join(ctx.repo.root, 'bitcoinlib', 'data', 'providers.json')))
+    except Exception as e:
+        ctx.undecided('providers.json unreadable: %r' % e)
+    k = 0
+    for name, v in sorted(data.items()):
+        k += 1
+        d = v.get('denominator')
+        ctx.require(d in (1, 100000000) and not isinstance(d, bool), 'bitcoinlib/data/providers.json', 'provider %s: denominator is %r (expected 1 for APIs reporting the smallest unit, 100000000 for APIs reporting coins)' % (name, d), None)
+    ctx.saw('%d provider entries carry denominator 1 or 100000000' % k)
+    ctx.floor(k, 30, 'provider entries')
